@@ -334,8 +334,22 @@ Definition cmp_arr_self1 (c : cmp) (v : cell) (b : list Q) : bits :=
   | CNe => match v with Some value => map (fun j => negb (qeqb j value)) b | None => map (fun j => negb (qzerob j)) b end
   | _ => map (fun j => qcmp c (dcell v) j) b
   end.
+(* _eq_array / _ne_array, other_size == 1 (reached with the rows of a 2-d operand that has one column) *)
+Definition cmp_arr_other1 (c : cmp) (a : cells) (other : Q) : bits :=
+  match c with
+  | CEq => if qzerob other then map (fun x => negb (present x)) a
+           else map (fun x => match x with Some v => qeqb other v | None => false end) a
+  | _ => if qzerob other then map present a
+         else map (fun x => match x with Some v => negb (qeqb other v) | None => true end) a
+  end.
 Definition cmp_array (c : cmp) (a : cells) (b : list Q) : res bits :=
-  dispatch_array (fun a b => Ok (map2 (cmp_arr_same_c c) a b)) (fun v b => Ok (cmp_arr_self1 c v b)) a b.
+  match c with
+  | CEq | CNe =>
+      if Nat.eqb (length a) (length b) then Ok (map2 (cmp_arr_same_c c) a b)
+      else if len1 a && negb (len0 b) then Ok (cmp_arr_self1 c (hd None a) b)
+      else match b with [x] => Ok (cmp_arr_other1 c a x) | _ => Err EValue end
+  | _ => dispatch_array (fun a b => Ok (map2 (cmp_arr_same_c c) a b)) (fun v b => Ok (cmp_arr_self1 c v b)) a b
+  end.
 
 (* ------------------------------------------------------------------ reductions on float vectors *)
 Definition qsumc (a : cells) : Q := qsum (dense a).     (* sum(dct.values()) *)
@@ -629,7 +643,10 @@ Definition vec_bin (lg : bool) (o : bop) (self : vec) (p : operand) : res vec :=
       | BC m, PArr l _ =>
           if Nat.eqb (length b) (length l) then Ok (VB (map2 (fun x j => qcmp m (b2q x) j) b l))
           else if Nat.eqb (length b) 1 then Ok (VB (map (fun j => qcmp m (b2q (hdb b)) j) l))
-          else Err EValue
+          else match l with
+               | [x] => Ok (VB (lv_cmp_scalar b (qcmp m 1 x) (qcmp m 0 x)))      (* other_size == 1 *)
+               | _ => Err EValue
+               end
       | _, _ => unsupported
       end
   end.
@@ -704,11 +721,11 @@ Definition array_ibin (lg : bool) (o : bop) (alias : bool) (rows : list vec) (p 
   match p with
   | PA r => if negb (is_float_rows rows) then Err EValue       (* cannot cast boolean to float *)
             else match r with
-                 | [x] => mapM (fun row => vec_ibin lg o false row (PV x)) rows
+                 | [x] => mapM (fun row => vec_ibin lg o alias row (PV x)) rows      (* alias: the array itself, which then has this one row *)
                  | _ => map2M (fun row x => vec_ibin lg o alias row (PV x)) rows r
                  end
   | PB r => match r with
-            | [x] => mapM (fun row => vec_ibin lg o false row (PL x)) rows
+            | [x] => mapM (fun row => vec_ibin lg o alias row (PL x)) rows
             | _ => map2M (fun row x => vec_ibin lg o alias row (PL x)) rows r
             end
   | PV d => if negb (is_float_rows rows) then Err EValue
@@ -972,39 +989,49 @@ Definition arrF_get (rows : list cells) (ax : aindex) : aget :=
            end
   end.
 
-(* apply f to the rows selected by sel, in order (a row selected twice is written twice); an exception
-   leaves the rows written so far modified: the result is (rows, raised exception) *)
-Fixpoint upd_rows {A} (f : A -> res A) (rows : list A) (sel : list nat) : list A * option err :=
+(* apply f to the rows selected by sel, in order (a row selected twice is written twice); f returns the
+   row as it is left and the exception raised, if any; an exception ends the loop and leaves the rows
+   written so far modified *)
+Fixpoint upd_rows {A} (f : A -> A * option err) (rows : list A) (sel : list nat) : list A * option err :=
   match sel with
   | [] => (rows, None)
   | i :: t => match nth_error rows i with
               | None => (rows, Some EIndex)
               | Some r => match f r with
-                          | Err e => (rows, Some e)
-                          | Ok r' => upd_rows f (upd rows i r') t
+                          | (r', Some e) => (upd rows i r', Some e)
+                          | (r', None) => upd_rows f (upd rows i r') t
                           end
               end
   end.
-Fixpoint upd_rows2 {A B} (f : A -> B -> res A) (rows : list A) (sel : list nat) (vals : list B) : list A * option err :=
+Fixpoint upd_rows2 {A B} (f : A -> B -> A * option err) (rows : list A) (sel : list nat) (vals : list B) : list A * option err :=
   match sel, vals with
   | i :: t, v :: vt => match nth_error rows i with
                        | None => (rows, Some EIndex)
                        | Some r => match f r v with
-                                   | Err e => (rows, Some e)
-                                   | Ok r' => upd_rows2 f (upd rows i r') t vt
+                                   | (r', Some e) => (upd rows i r', Some e)
+                                   | (r', None) => upd_rows2 f (upd rows i r') t vt
                                    end
                        end
   | _, _ => (rows, None)
   end.
+Definition keep_on_err {A} (r : A) (x : res A) : A * option err :=
+  match x with Ok r' => (r', None) | Err e => (r, Some e) end.
+Definition vd2 (p : operand) : bool := match p with PA _ | PB _ | PArr2 _ _ => true | _ => false end.
+(* reduce_ndim applied to a sparse value: a one-row array is its row, a size-1 vector its element *)
+Definition reduce_obj (p : operand) : operand :=
+  let p1 := match p with PA [r] => PV r | PB [r] => PL r | _ => p end in
+  match p1 with PV [x] => PS (dcell x) false | PL [x] => PS (b2q x) true | _ => p1 end.
 (* direct dictionary writes of a[[m...], [n...]] = value: no read_only test *)
-Definition dset (c : cells) (j : nat) (q : Q) : res cells := set1 c j q.
+Definition dset (c : cells) (j : nat) (q : Q) : cells * option err := keep_on_err c (set1 c j q).
 
 Definition arrF_set (rows : list cells) (ro : bool) (ax : aindex) (p : operand) : list cells * option err :=
   let nrows := length rows in
   let vs := vsize rows in
   let nope : list cells * option err := (rows, Some EOther) in
-  let rowset (n : index) (c : cells) (v : operand) : res cells :=       (* row[n] = v through SparseVector.__setitem__ *)
-    if ro then Err EValue else vecF_set c n v in
+  let rowset (n : index) (c : cells) (v : operand) : cells * option err :=     (* row[n] = v through SparseVector.__setitem__ *)
+    if ro then (c, Some EValue)
+    else if is_open n && vd2 v then (empty_cells (length c), Some EIndex)      (* dct.clear() precedes the IndexError *)
+    else keep_on_err c (vecF_set c n v) in
   let bcast (sel : list nat) (n : index) : list cells * option err :=
     match p with
     | PArr2 m isb => upd_rows2 (fun c v => rowset n c (reduce1 v isb)) rows sel m
@@ -1195,8 +1222,9 @@ Definition step_res (lg : bool) (s : store) (o : op) : res (store * outcome) :=
       | None => unsupported
       end
   | OSet i ix a =>
-      do x <- getobj s i; do p <- resolve s a;
-      let vd2 := match p with PA _ | PB _ | PArr2 _ _ => true | _ => false end in
+      do x <- getobj s i; do p0 <- resolve s a;
+      let p := reduce_obj p0 in
+      let vd2 := vd2 p in
       match x with
       | OV c ro => if ro then Err EValue
                    else if alias_of a i then
@@ -1260,7 +1288,7 @@ Definition xstep_res (lg : bool) (s : store) (o : xop) : res (store * outcome) :
   | XASet i ax a =>
       do x <- getobj s i; do p <- resolve s a;
       match x with
-      | OA rows ro => let (rows', e) := arrF_set rows ro ax p in
+      | OA rows ro => let (rows', e) := arrF_set rows ro ax (reduce_obj p) in
                       Ok (set_obj s i (OA rows' ro), match e with None => RUnit | Some e => RErr e end)
       | _ => unsupported
       end
